@@ -12,6 +12,33 @@ from .signals import Raised, Returned, Abandon, BreakSig, ContinueSig, ConsumerS
 
 class ExprMixin:
 
+    def divmod_const(self, a, c):
+        """(q, r) with a == c*q + r and 0 <= r < c for a constant c > 0: the exact (linear) definition, shared by //, % and divmod"""
+        a = self.store.canon(Lin.of(a))
+        if a.is_const():
+            return Lin.const(a.c // c), Lin.const(a.c % c)
+        memo = self.__dict__.setdefault('_divmod_memo', {})
+        key = (a, c)
+        if key in memo:
+            return memo[key]
+        if all(k % c == 0 for _, k in a.t) and a.c % c == 0:
+            r = (Lin(a.c // c, tuple((s_, k // c) for s_, k in a.t)), Lin.const(0))
+            memo[key] = r
+            return r
+        lo, hi = self.store.bounds(a)
+        q, r = self.fresh('q'), self.fresh('r')
+        self.store.declare(q, lo // c if lo is not None else None, hi // c if hi is not None else None, info=f'({a})//{c}')
+        self.store.declare(r, 0, c - 1, info=f'({a})%{c}')
+        # the definition is kept as two inequalities: q and r stay plain symbols with their own intervals
+        d = a - Lin.sym(q).scale(c) - Lin.sym(r)
+        try:
+            self.store.assume_ge0(d)
+            self.store.assume_ge0(-d)
+        except Exception:
+            pass
+        memo[key] = (Lin.sym(q), Lin.sym(r))
+        return memo[key]
+
     def xor_atoms(self, lin):
         """Operands of the XOR chain that produced the integer `lin` (itself, when it is not a XOR)."""
         lin = self.store.canon(Lin.of(lin))
@@ -575,22 +602,13 @@ class ExprMixin:
                 if ca.is_const() and cb.is_const() and cb.c != 0:
                     return IntV(ca.c // cb.c, tags)
                 if cb.is_const() and cb.c > 0:
-                    # exact when all coefficients divide
-                    if all(k % cb.c == 0 for _, k in ca.t) and ca.c % cb.c == 0:
-                        return IntV(Lin(ca.c // cb.c, tuple((s, k // cb.c) for s, k in ca.t)), tags)
-                    lo, hi = self.store.bounds(ca)
-                    s = self.fresh('t')
-                    self.store.declare(s, lo // cb.c if lo is not None else None,
-                                       hi // cb.c if hi is not None else None, info=f'({ca})//{cb.c}')
-                    return IntV(Lin.sym(s), tags)
+                    return IntV(self.divmod_const(ca, cb.c)[0], tags)
                 return self._opaque_int('floordiv', node, tags)
             if isinstance(op, ast.Mod):
                 if ca.is_const() and cb.is_const() and cb.c != 0:
                     return IntV(ca.c % cb.c, tags)
                 if cb.is_const() and cb.c > 0:
-                    s = self.fresh('t')
-                    self.store.declare(s, 0, cb.c - 1, info=f'({ca})%{cb.c}')
-                    return IntV(Lin.sym(s), tags)
+                    return IntV(self.divmod_const(ca, cb.c)[1], tags)
                 return self._opaque_int('mod', node, tags)
             if isinstance(op, (ast.BitXor, ast.BitAnd, ast.BitOr, ast.LShift, ast.RShift)):
                 if ca.is_const() and cb.is_const():
@@ -659,6 +677,8 @@ class ExprMixin:
     def _opaque_int(self, why, node, tags=frozenset(), nonneg=False):
         s = self.fresh('t')
         self.store.declare(s, 0 if nonneg else None, None, info=why)
+        # the result of an operation that is not modelled: not every value in its interval need be attainable
+        self.store.__dict__.setdefault('opaque', set()).add(s)
         return IntV(Lin.sym(s), tags)
 
     def _repeat(self, s, n, node):
